@@ -91,6 +91,9 @@ func AnalyzeMetrics15sShortcut(script *logql_parser.LogQLScript) bool {
 			if str != "" || err != nil {
 				return false
 			}
+			if ppl.LineFilter.Fn != "|=" && ppl.LineFilter.Fn != "|~" {
+				return false
+			}
 		}
 	}
 	return true
